@@ -129,6 +129,7 @@ def h_hostile_fd(ex, kinds, srcs, gaps, phase='fresh', length=None, mpglen=4):
     w.run(until=w.now + T('6.5'))
     info = {'phase': phase, 'kinds': kinds, 'srcs': srcs, 'gaps': gaps}
     ex.claim('fd.exceptions_contained_at_the_bus_listener', not n.listener_escapes, dict(info, escaped=[repr(e) for e in n.listener_escapes][:2]))
+    ex.claim('fd.frame_handler_returns', n.hung is None, dict(info, hung=n.hung))
     ex.claim('fd.job_thread_alive', n.dead is None, dict(info, died=repr(n.dead)))
     ex.claim('fd.no_busy_spin', not n.spin, info)
     if not n.job_alive():
